@@ -681,6 +681,16 @@ class Scheduler:
                     self.cv.wait(timeout=1)
 
 
+_PATCHED = {}
+
+
+def restore_start_rule():
+    """undo the gating of the generated parser's start rule (also after a run that was aborted)"""
+    if "start_rule" in _PATCHED:
+        from pymoca.generated.ModelicaParser import ModelicaParser
+        ModelicaParser.stored_definition = _PATCHED.pop("start_rule")
+
+
 def scheduled_run(ctx, case, drv, pool):
     """case: {"kind":"schedule","state":…, "texts":[ix per thread], "preinit":bool, "choices":[…]|None, "seed":…}.
     Returns (nontrivial, choices)."""
@@ -704,6 +714,22 @@ def scheduled_run(ctx, case, drv, pool):
         gp = gate_path_class(sched.hook)
         days = case.get("days") or [30] * n
         newproc = case.get("newproc") or [False] * n
+        # the ANTLR phase of _parse() is two scheduled events per call (kind `antlr`): before the generated parser's
+        # start rule runs (the error listener is set up) and after it returned (all syntax errors reported, the
+        # listener's flag not yet read) — so a valid and a broken parse can be made to overlap in either order
+        from pymoca.generated.ModelicaParser import ModelicaParser
+        restore_start_rule()
+        orig_start_rule = ModelicaParser.stored_definition
+        _PATCHED["start_rule"] = orig_start_rule
+
+        def gated_start_rule(self_):
+            if threading.get_ident() not in sched.tids:
+                return orig_start_rule(self_)
+            sched.hook(None, "antlr", lambda: None)
+            r = orig_start_rule(self_)
+            sched.hook(None, "antlr", lambda: None)
+            return r
+        ModelicaParser.stored_definition = gated_start_rule
 
         def call(i):
             # `newproc`: this call is the first use of the database in its "process": the module state is forgotten
@@ -739,7 +765,7 @@ def scheduled_run(ctx, case, drv, pool):
                 continue
             preds = {}
             for t, k in sorted(pend.items()):
-                if k in ("start", "fs"):
+                if k in ("start", "fs", "antlr"):
                     preds[t] = {"outcome": "ok", "lock": model[t]["lock"], "inTxn": model[t]["inTxn"]}
                     continue
                 ans = drv.ask({"op": "lock.call", "conns": model, "i": t, "stmt": k}) if drv is not None else None
@@ -753,7 +779,7 @@ def scheduled_run(ctx, case, drv, pool):
                 early = [t for t in enabled if not (pend[t] == "start" and len(choices) < stagger[t])]
                 if early:
                     enabled = early
-            waiting = [t for t in sorted(pend) if t not in enabled and pend[t] not in ("start", "fs")]
+            waiting = [t for t in sorted(pend) if t not in enabled and pend[t] not in ("start", "fs", "antlr")]
             if forced is not None:
                 if len(choices) >= len(forced):
                     pick = (enabled or waiting)[0]
@@ -818,6 +844,7 @@ def scheduled_run(ctx, case, drv, pool):
                 raise HarnessError("scheduled run does not terminate")
         for t in threads:
             t.join(timeout=10)
+        restore_start_rule()
         results = dict(sched.finished)
     # ---- direct oracle
     c = dict(case, choices=choices)
@@ -1108,6 +1135,7 @@ def _run(ctx):
     try:
         _run_ties(ctx, drv, quick, rng, pool, workers)
     finally:
+        restore_start_rule()
         workers.close()
         scratch_cleanup(ctx)
 
@@ -1183,6 +1211,16 @@ def _run_ties(ctx, drv, quick, rng, pool, workers):
         fixed.append({"kind": "schedule", "state": "cached", "texts": [0, 1], "preinit": False, "update": late % 2 == 0,
                       "days": [30, 0], "newproc": [False, True], "policy": "favor:1", "stagger": [0, late], "seed": late,
                       "pool": pool["texts"]})
+    # a valid and a broken text parsed at the same time (both miss): in lockstep, and with the second call arriving
+    # at every point around the first one's ANTLR phase and then running whenever it can
+    for texts in ([0, 5], [5, 0], [1, 6, 5]):
+        fixed.append({"kind": "schedule", "state": "fresh", "texts": texts, "preinit": False, "update": False,
+                      "policy": "roundrobin", "seed": 0, "pool": pool["texts"]})
+    for texts in ([0, 5], [5, 1]):
+        for late in range(21, 31):
+            fixed.append({"kind": "schedule", "state": "existing", "texts": texts, "preinit": False, "update": False,
+                          "newproc": [False, late % 2 == 0], "policy": "favor:1", "stagger": [0, late], "seed": late,
+                          "pool": pool["texts"]})
     # a second call that arrives after the first one's k-th statement and then runs whenever it can
     for state, late in [("extracol", 2), ("extracol", 3), ("extracol", 5), ("wronglayout", 2), ("fresh", 2), ("fresh", 4)]:
         fixed.append({"kind": "schedule", "state": state, "texts": [0, 1], "preinit": False, "update": False,
